@@ -55,7 +55,7 @@ class GeminiProtocol(BaseGopherProtocol):
             return
         except IOError as e:
             GopherExceptions.log(e, self, None)
-            self.write_status(51, e.args[1])
+            self.write_status(51, e.strerror or str(e))
             return
 
         if handler.isdir():
